@@ -62,7 +62,8 @@ Definition ib_encode (m : msg) : res (list N) :=
   else if negb (m_reg m <? 256) then Err EValue
   else Ok ([13] ++ escape (ib_payload m) ++ [10]).
 
-Definition ib_decode (e : list N) : res msg :=
+(* types = the values of the live MessageType enum (read from the code on every run) *)
+Definition ib_decode (types : list N) (e : list N) : res msg :=
   if len e <? 8 then Err EValue
   else match e with
   | [] => Err EValue
@@ -74,7 +75,7 @@ Definition ib_decode (e : list N) : res msg :=
         else if negb (crc_of u =? 0) then Err EValue
         else match firstn (length u - 2) u with
              | d :: s :: t :: g :: data =>
-                 if t <=? 9 then Ok (mkmsg d s t g data) else Err EValue   (* MessageType(t) *)
+                 if existsb (N.eqb t) types then Ok (mkmsg d s t g data) else Err EValue   (* MessageType(t) *)
              | _ => Err EValue
              end
   end.
@@ -83,26 +84,27 @@ Definition ib_decode (e : list N) : res msg :=
 (* what transport.read_until(b"\n") does on successive calls *)
 Inductive rd := RdTimeout | RdBytes (b : list N).
 
-Definition MAX_RETRY : nat := 10.
+(* Tuning constants the property does not fix are PARAMETERS, read from the live class on every run:
+   maxr = NKTPhotonicsInterbusProtocol.MAX_RETRY_COUNT, base = HOST_BASE_ADDRESS. *)
 
 (* the while-loop; one scripted read per iteration; writes accumulate in order *)
-Fixpoint rr_loop (req : list N) (dst src : N) (fc : nat) (script : list rd) (wr : list (list N))
-  : list (list N) * res msg :=
+Fixpoint rr_loop (types : list N) (maxr : nat) (req : list N) (dst src : N) (fc : nat) (script : list rd)
+                 (wr : list (list N)) : list (list N) * res msg :=
   match script with
   | [] => (wr, Err EExhausted)
   | ev :: rest =>
       let bad (e : err) :=
-        if (MAX_RETRY <? S fc)%nat then (wr, Err e)
-        else rr_loop req dst src (S fc) rest (wr ++ [req]) in
+        if (maxr <? S fc)%nat then (wr, Err e)
+        else rr_loop types maxr req dst src (S fc) rest (wr ++ [req]) in
       match ev with
       | RdTimeout => bad ETimeout
       | RdBytes b =>
-          match ib_decode b with
+          match ib_decode types b with
           | Err _ => bad EInstr                       (* ValueError -> QMI_InstrumentException *)
           | Ok m =>
               if (m_src m =? dst) && (m_dest m =? src) then (wr, Ok m)
-              else if (MAX_RETRY <? S fc)%nat then (wr, Err EInstr)
-              else rr_loop req dst src (S fc) rest wr
+              else if (maxr <? S fc)%nat then (wr, Err EInstr)
+              else rr_loop types maxr req dst src (S fc) rest wr
           end
       end
   end.
@@ -110,13 +112,13 @@ Fixpoint rr_loop (req : list N) (dst src : N) (fc : nat) (script : list rd) (wr 
 Definition next_toggle (t : N) : N := N.land (t + 1) 1.
 
 (* returns (new _source_toggle, writes, outcome) *)
-Definition request_response (toggle dst mt reg : N) (data : list N) (script : list rd)
-  : N * list (list N) * res msg :=
+Definition request_response (types : list N) (maxr : nat) (base : N) (toggle dst mt reg : N) (data : list N)
+                            (script : list rd) : N * list (list N) * res msg :=
   let t := next_toggle toggle in
-  let src := 161 + t in
+  let src := base + t in
   match ib_encode (mkmsg dst src mt reg data) with
   | Err e => (t, [], Err e)
-  | Ok req => let '(w, r) := rr_loop req dst src 0 script [req] in (t, w, r)
+  | Ok req => let '(w, r) := rr_loop types maxr req dst src 0 script [req] in (t, w, r)
   end.
 
 (* ---- reference device side ("conforming device"): byte-wise escape spec ---------------- *)
